@@ -588,6 +588,34 @@ def two_spellings_scenario(ctx, viol):
         pr.destroy()
 
 
+def non_utf8_scenario(ctx, viol):
+    """A script writes a stderr line containing bytes that are not UTF-8 (a compiler quoting a Latin-1 file name, a
+    truncated multi-byte sequence at a line end, a NUL-free binary blob).  The property quantifies over every line a
+    script writes: the lines around it, and the lines of every other target, must still appear exactly once and in
+    order, live and in a later replay (before fix ec19c0e the viewer gave up at the first such byte, exit 0)."""
+    want = {"a": ["a-before", None, "a-middle", None, None, "a-after", "a-last"], "b": ["b-one", None, "b-two"]}
+    for j in (1, 2):
+        pr = Project()
+        try:
+            pr.write("a.do", "echo a-before >&2\nprintf 'caf\\351 latin1\\n' >&2\necho a-middle >&2\nprintf 'cut \\342\\202\\n' >&2\nprintf '\\377\\376\\n' >&2\necho a-after >&2\nredo-ifchange b\necho a-last >&2\necho a\n")
+            pr.write("b.do", "echo b-one >&2\nprintf '\\200tail\\n' >&2\necho b-two >&2\necho b\n")
+            rc, out, err = pr.run(["redo", "-j%d" % j, "--no-pretty", "--no-color", "--no-status", "a"], timeout=60)
+            rc2, out2, err2 = pr.run(["redo-log", "--no-pretty", "--no-color", "--no-status", "-r", "a"], timeout=60)
+            for where, text in (("live output", err), ("redo-log replay", out2)):
+                got = attribute(parse_out(text))
+                for t, w in want.items():
+                    g = got.get(t, [])
+                    ok = len(g) == len(w) and all(x is None or x == y for x, y in zip(w, g))
+                    if rc != 0 or rc2 != 0 or not ok:
+                        p = write_replay("C18", "non-utf8", dict(kind="impl-monitor", clause="every stderr line appears exactly once, in order, under its target (lines with bytes that are not UTF-8 included)",
+                                                                  where=where, j=j, target=t, rc=[rc, rc2], want=w, got=g, scripts=dict(a=pr.read("a.do").decode("latin-1"), b=pr.read("b.do").decode("latin-1")),
+                                                                  stderr=(err if where == "live output" else err2)[-600:]))
+                        viol.append(Violation("C18", p, "%s at -j%d: a stderr line with bytes that are not UTF-8: lines of %s are %r, expected %r (None = the undecodable line)" % (where, j, t, g[:8], w)))
+                        return
+        finally:
+            pr.destroy()
+
+
 CW_CAP = 20000          # upper bound of lines per background writer (keeps a round bounded on a stalled machine)
 RECORD_RE = re.compile(r"^@@REDO:[a-z]+:-?\d+:\d+\.\d+@@ [^@\n]*$")
 
@@ -843,6 +871,8 @@ def run(ctx):
         concurrent_reader_scenario(ctx, viol)
     if not viol:
         two_spellings_scenario(ctx, viol)
+    if not viol:
+        non_utf8_scenario(ctx, viol)
     s5 = {}
     if not viol:
         # own generator: the scenarios above keep their input streams
